@@ -371,3 +371,54 @@ Definition icase_spec_violation (cs : icase) : bool :=
 
 Definition imismatches (cs : list icase) : list nat := find_idx icase_mismatch cs.
 Definition ispec_violations (cs : list icase) : list nat := find_idx icase_spec_violation cs.
+
+(* ====================================================================== *)
+(* Who feeds the handler (statemachine.py), as finite decision functions tabulated on the real classes *)
+(* ====================================================================== *)
+Inductive wstate := WDistribution | WOperation | WConciliation.
+
+(* FiniteStateMachine.next() in a working state, with `lostp` = (invalidate_failed returned lost processes):
+   does the evaluation call failure_handler.add_default_job for them ?
+   _MasterSlaveState.next -> _master_next only on the Master; DistributionState and OperationState call
+   _WorkingState._master_next; ConciliationState._master_next does NOT. *)
+Definition loss_handled (st : wstate) (master lostp : bool) : bool :=
+  master && lostp && match st with WConciliation => false | _ => true end.
+
+(* FiniteStateMachine.on_process_state_event : add_default_job + trigger_jobs on a process crash *)
+Definition crash_handled (s : rfstrat) (master crashed forced : bool) : bool :=
+  master && crashed && negb forced
+  && match s with RfStopApplication | RfRestartApplication => true | _ => false end.
+
+(* ... and the Supvisors-level strategies go to on_restart / on_shutdown (0 none, 1 restart, 2 shutdown) *)
+Definition crash_ending (s : rfstrat) (master crashed : bool) : Z :=
+  if master && crashed then match s with RfRestart => 1 | RfShutdown => 2 | _ => 0 end else 0.
+
+Definition wcase := (wstate * bool * bool * bool)%type.               (* state, master, lostp, observed *)
+Definition ccase := (rfstrat * bool * bool * bool * (bool * Z))%type. (* strategy, master, crashed, forced, observed *)
+
+Definition wcase_mismatch (x : wcase) : bool :=
+  match x with (st, m, l, o) => negb (Bool.eqb (loss_handled st m l) o) end.
+Definition ccase_mismatch (x : ccase) : bool :=
+  match x with (s, m, cr, f, (o1, o2)) =>
+    negb (Bool.eqb (crash_handled s m cr f) o1 && Z.eqb (crash_ending s m cr) o2) end.
+
+(* Spec (property text): the Master, and only the Master, applies the strategy to every lost process *)
+Definition wcase_spec_violation (x : wcase) : bool :=
+  match x with (st, m, l, o) => negb (Bool.eqb o (m && l)) end.
+(* the class of candidate finding F8: the Master is in CONCILIATION *)
+Definition in_f8_class (x : wcase) : bool :=
+  match x with (WConciliation, true, true, _) => true | _ => false end.
+Definition wcase_spec_violation_outside_f8 (x : wcase) : bool := negb (in_f8_class x) && wcase_spec_violation x.
+Definition wcase_spec_violation_f8 (x : wcase) : bool := in_f8_class x && wcase_spec_violation x.
+(* crash: application-level strategies by the Master only, never on a forced state; SHUTDOWN / RESTART likewise *)
+Definition ccase_spec_violation (x : ccase) : bool :=
+  match x with (s, m, cr, f, (o1, o2)) =>
+    negb (Bool.eqb o1 (m && cr && negb f && (rf_eqb s RfStopApplication || rf_eqb s RfRestartApplication))
+          && Z.eqb o2 (if m && cr then (if rf_eqb s RfRestart then 1 else if rf_eqb s RfShutdown then 2 else 0) else 0))
+  end.
+
+Definition wmismatches (cs : list wcase) : list nat := find_idx wcase_mismatch cs.
+Definition wspec_violations (cs : list wcase) : list nat := find_idx wcase_spec_violation_outside_f8 cs.
+Definition wknown_f8 (cs : list wcase) : list nat := find_idx wcase_spec_violation_f8 cs.
+Definition cmismatches (cs : list ccase) : list nat := find_idx ccase_mismatch cs.
+Definition cspec_violations (cs : list ccase) : list nat := find_idx ccase_spec_violation cs.
